@@ -125,3 +125,47 @@ def replay_suppressed(run, cases, trace_module, trace_cfg, key_of, step=4, trace
     sub = [dict(c) for c in cases[::step]]
     return replay_load(run, sub, trace_module, trace_cfg, build_features=("json", "quote", "suppress"), variant="json-quote-suppress",
                        key_of=lambda c, r: "suppress_key_warnings;" + key_of(c, r), tag=tag, trace_env=trace_env)
+
+
+def replay_reload(run, cases, trace_module, trace_cfg, key_of, trace_env=None, package="drv_parser", build_features=("json", "quote"),
+                  variant="json-quote", tag="_reload", fmt="json", per_case_timeout=30):
+    """"The project was edited and loaded again": project j is loaded, then THE SAME DIRECTORY is given the content of project
+    j + 1 and loaded again in the same process (what a language server's macro expansion or a long-lived build daemon does).
+    The second load must be the outcome of the new content - nothing may be remembered by path."""
+    wd = os.path.join(run.workdir, "load" + tag)
+    shutil.rmtree(wd, ignore_errors=True)
+    os.makedirs(wd)
+    binary = vp.cargo_build(package, build_features if package == "drv_parser" else (), variant=variant if package == "drv_parser" else None)
+    cases = [c for c in cases if c.get("mode") != "value"]
+    dirs = []
+    for i, c in enumerate(cases):
+        d = os.path.join(wd, "src%05d" % (i + 1))
+        vp.materialise(c, os.path.join(d, c["root"]) if c.get("root") else d, fmt=fmt)
+        dirs.append(d)
+    rows, abss = [], []
+    for j in range(len(cases) - 1):
+        slot = os.path.join(wd, "slot%05d" % (j + 1))
+        for k in (j, j + 1):
+            root = cases[k].get("root")
+            # (projects that live in a sub-directory of their case keep doing so; the slot then is the case directory)
+            rows.append({"case": len(rows) + 1, "mode": "load", "dir": os.path.join(slot, root) if root else slot,
+                         "pre_copy_from": os.path.join(dirs[k], root) if root else dirs[k], "skip_icu": False})
+            abss.append(cases[k])
+    cases_path = os.path.join(wd, "cases.ndjson")
+    vp.write_ndjson(cases_path, [{"id": i + 1, "abs": c.get("abs")} for i, c in enumerate(abss)])
+    drv_in = os.path.join(wd, "drv_in.ndjson")
+    vp.write_ndjson(drv_in, rows)
+    trace_path = os.path.join(wd, "trace.ndjson")
+    vp.run_driver(binary, drv_in, trace_path, len(rows), per_case_timeout=per_case_timeout)
+    summary, rejects, res = vp.trace_validate(trace_module, trace_cfg, wd, trace_path, cases_path, env=trace_env)
+    if summary["consumed"] != summary["events"]:
+        raise vp.ToolError("trace spec %s consumed %s of %s events" % (trace_module, summary["consumed"], summary["events"]))
+    run.traces += len(rows)
+    run.events += summary["events"]
+    run.cases += len(rows)
+    for r in rejects:
+        c = abss[r["case"] - 1]
+        run.violation("reloaded-after-edit;" + key_of(c, r), "case %d (%s load of its directory) tags %s" % (r["case"], "second" if r["case"] % 2 == 0 else "first", sorted(r["tags"])[:6]),
+                      {"case": _shrink(c, 60000), "tags": sorted(r["tags"])[:50], "trace_module": trace_module, "row": rows[r["case"] - 1]})
+    shutil.rmtree(wd, ignore_errors=True) if not rejects else None
+    return summary, rejects
